@@ -3,7 +3,7 @@
    pyxel/util/misc.py (get_dtype) and from the three detector-level converter models on every run. *)
 From Coq Require Import ZArith List Bool Reals Lia.
 From Flocq Require Import Core BinarySingleNaN.
-From PyxelV Require Import Lib.B64 Model.Adc Proofs.AdcChain Proofs.AdcFloat Proofs.AdcRange Proofs.AdcSimple Proofs.AdcSar Proofs.AdcSar0 Proofs.AdcFrame Proofs.AdcWitness.
+From PyxelV Require Import Lib.B64 Model.Adc Proofs.AdcChain Proofs.AdcFloat Proofs.AdcRange Proofs.AdcSimple Proofs.AdcSar Proofs.AdcSar0 Proofs.AdcFrame Proofs.AdcWrap Proofs.AdcWitness.
 From PyxelGen Require Import Gen_C16.
 Import ListNotations.
 Open Scope Z_scope.
@@ -165,6 +165,58 @@ Theorem C16_sar_noise0 :
   sar0_code w bits vmax x = sar_code w bits vmax x.
 Proof. exact sar0_eq_sar. Qed.
 Print Assumptions C16_sar_noise0.
+
+(* ================================================================ the detector-level models
+   simple_adc / sar_adc / sar_adc_with_noise as wired in the source (Gen_C16.src_*_wiring, regenerated
+   on every run): each reads adc_bit_resolution and adc_voltage_range (minimum first) of the detector it
+   is given, hands detector.signal.array (and the detector's own geometry) to the converter, chooses the
+   type with get_dtype(adc_bit_resolution) unless data_type overrides it, and stores the converter's
+   result unchanged as detector.image.array. *)
+Theorem C16_wrappers_wired :
+  simple_wiring_ok src_simple_wiring = true /\ sar_wiring_ok src_sar_wiring = true /\
+  sar0_wiring_ok src_sar0_wiring = true.
+Proof. vm_compute. repeat split; reflexivity. Qed.
+Print Assumptions C16_wrappers_wired.
+
+(* the image is the converter's output on the detector's own characteristics *)
+Theorem C16_detector_image :
+  forall d : adc_detector,
+  run_simple src_dtype_chain src_simple_wiring d None
+    = simple_frame src_dtype_chain (d_bits d) (d_lo d) (d_hi d) (d_signal d) /\
+  run_sar src_dtype_chain src_sar_wiring d = sar_frame src_dtype_chain (d_bits d) (d_hi d) (d_signal d) /\
+  run_sar0 src_dtype_chain src_sar0_wiring d (d_bits d) (d_bits d)
+    = sar0_frame src_dtype_chain (d_bits d) (d_hi d) (d_signal d) /\
+  (forall n m, (n <> d_bits d \/ m <> d_bits d) -> run_sar0 src_dtype_chain src_sar0_wiring d n m = None).
+Proof.
+  intros d. destruct C16_wrappers_wired as [A [B C]].
+  split; [apply run_simple_ok; exact A|]. split; [apply run_sar_ok; exact B|].
+  apply run_sar0_ok. exact C.
+Qed.
+Print Assumptions C16_detector_image.
+
+(* hence, for every allowed detector setting, the image simple_adc stores satisfies the specification —
+   with the type get_dtype chooses, and with any data_type override at least as wide as the resolution *)
+Theorem C16_simple_adc_detector :
+  forall d : adc_detector, 1 <= d_bits d <= 64 ->
+  is_finite (d_lo d) = true -> is_finite (d_hi d) = true -> (B2R (d_lo d) < B2R (d_hi d))%R ->
+  is_finite (bsub (d_hi d) (d_lo d)) = true ->
+  no_nan (d_signal d) = true -> sortedB (d_signal d) = true ->
+  (exists w cs, run_simple src_dtype_chain src_simple_wiring d None = Some (w, map Some cs) /\
+                simple_spec (d_bits d) (d_lo d) (d_hi d) (d_signal d) w cs = true) /\
+  (forall wd, d_bits d <= wd ->
+   exists cs, run_simple src_dtype_chain src_simple_wiring d (Some wd) = Some (wd, map Some cs) /\
+              simple_spec (d_bits d) (d_lo d) (d_hi d) (d_signal d) wd cs = true).
+Proof.
+  intros d Hb Flo Fhi Hr Fs Hn Hs. destruct C16_wrappers_wired as [A _]. split.
+  - rewrite (run_simple_ok _ _ d A).
+    apply (simple_frame_meets_spec src_dtype_chain ltac:(vm_compute; reflexivity)); assumption.
+  - intros wd Hw.
+    destruct (simple_codes_meet_spec (d_bits d) (d_lo d) (d_hi d) Hb Flo Fhi Hr Fs wd (d_signal d) Hw Hn Hs)
+      as [cs [E Sp]].
+    exists cs. split; [|exact Sp].
+    rewrite (run_simple_override _ _ d wd A eq_refl), E. reflexivity.
+Qed.
+Print Assumptions C16_simple_adc_detector.
 
 (* ================================================================ non-vacuity *)
 
